@@ -68,7 +68,19 @@ func (d *c08Dialer) h3dial(ctx context.Context, addr string, tlsCfg *tls.Config,
 			}
 		}
 	}
-	conn, err := quic.DialAddrEarly(ctx, addr, tlsCfg, cfg)
+	// A context that is already done fails the dial — decided here, not by the coin toss of quic-go's
+	// (and this hook's) select between "context done" and "handshake complete", which on a loaded machine
+	// lets a dial under a dead context succeed now and then (the connection is then cached and the
+	// follow-up needs no dial: allowed by the property, not what the model's atomic pick-up says).
+	var conn quic.EarlyConnection
+	err := ctx.Err()
+	if err == nil {
+		conn, err = quic.DialAddrEarly(ctx, addr, tlsCfg, cfg)
+	}
+	if err == nil && ctx.Err() != nil {
+		conn.CloseWithError(0, "")
+		err = ctx.Err()
+	}
 	if err == nil {
 		select {
 		case <-conn.HandshakeComplete():
